@@ -104,11 +104,13 @@ theorem optsText_written (o0 o1 o2 : Int) (os : List Int) (ncons nd nvars np : N
       (fun i hi => hr i (by rw [e]; exact List.mem_append_left _ hi)) rest
   rw [e, h1]
   simp only [List.getD_cons_zero, List.getD_cons_succ]
-  have hn : ¬ (((os.length + 1 + 1 + 1 : Nat) : Int) < 3 ∨ ((os.length + 1 + 1 + 1 : Nat) : Int) > 9) := by omega
-  simp only [List.length_cons] at hn ⊢
-  simp only [hn, if_false]
-  have hvb : decide (o1 = 3) = false := by simp [h3]
-  simp only [hvb, Bool.false_eq_true, if_false]
+  have hh : optHeader ((o0 :: o1 :: o2 :: os).length : Int) o1 = some (((os.length + 1 + 1 + 1 : Nat) : Int).toNat, false) := by
+    unfold optHeader
+    simp only [List.length_cons]
+    have hn : ¬ (((os.length + 1 + 1 + 1 : Nat) : Int) < 3 ∨ ((os.length + 1 + 1 + 1 : Nat) : Int) > 9) := by omega
+    simp only [hn, if_false, h3]
+  rw [hh]
+  simp only []
   have hlen : ((os.length + 1 + 1 + 1 : Nat) : Int).toNat + 1 = (os ++ [(ncons : Int), (nd : Int), (nvars : Int), (np : Int)]).length := by
     simp; omega
   rw [hlen]
